@@ -134,7 +134,9 @@ PROPS = {
     "C15": dict(
         lean_targets=["BB.Props.C15"],
         theorems=["BB.Props.C15.build_wf", "BB.Props.C15.iter_exit", "BB.Props.C15.iter_failure", "BB.Props.C15.iter_success",
-                  "BB.Props.C15.iter_never_bad", "BB.Props.C15.accounting", "BB.Props.C15.publish_exactly_once"],
+                  "BB.Props.C15.iter_never_bad", "BB.Props.C15.accounting", "BB.Props.C15.publish_exactly_once",
+                  "BB.Props.C15.eligible_only_matching", "BB.Props.C15.matching_is_eligible", "BB.Props.C15.duplicate_subscribe_rejected", "BB.Props.C15.subscribe_adds_only_that",
+                  "BB.Props.C15.unmatched_unsubscribe_rejected", "BB.Props.C15.unsubscribed_is_never_eligible"],
         corr=[dict(family="notifier", quick=300, thorough=20000, mismatch_is_violation=True,
                    nontrivial=has("middle_guard_cancelled", "cancel_among_3", "nil_value", "pub_cancelled", "dup_sub", "bad_unsub", "some_ineligible"),
                    rule="notifier: 3-7 subscriptions (with/without contexts, element types any/int/*int/error, two keys), duplicate Subscribe and unmatched "
